@@ -8,7 +8,7 @@ From GV Require Import Base.Outcome Base.AMap Model.GState Model.Creation Model.
      Model.Components Model.Cluster Spec.ReachDef Spec.CompSpec Spec.EdgeAdj Spec.ClusterDef Spec.ClusterSpec.
 From GV Require Import Proofs.AMapOk Proofs.WFDefs Proofs.WFNode Proofs.WFAdj Proofs.WFEdge Proofs.Refine
      Proofs.AdjOk Proofs.QueryOk Proofs.ReachOk Proofs.ComponentsOk Proofs.CompWF
-     Proofs.ClusterDefOk Proofs.ClusterOk Proofs.ClusterEqOk.
+     Proofs.ClusterDefOk Proofs.ClusterOk Proofs.ClusterEqOk Proofs.ClusterGenOk.
 Import ListNotations.
 Close Scope Q_scope.
 
@@ -142,6 +142,22 @@ Section ClusterWF.
       intros q H.
       rewrite <- (transitivity_ext teqb teqb_spec nodes _ _ Hext).
       apply (transitivity_eq_def teqb teqb_spec g (nbr_ok_wf g W) q H).
+    Qed.
+
+    (* generalized_degree(v): duplicate-free histogram; an entry (k, c) exactly when
+       c = (number of edges at v lying in exactly k triangles) <> 0 *)
+    Theorem generalized_degree_wf : forall nn m v,
+      generalized_degree teqb g nn = Ok m ->
+      In v (requested_names g nn) -> In v nodes ->
+      exists h, lookup teqb v m = Some h /\ NoDup (map fst h) /\
+        forall k, lookup Nat.eqb k h =
+                  if Nat.eqb (gen_degree teqb nodes (edge_adjb teqb g) v k) 0 then None
+                  else Some (gen_degree teqb nodes (edge_adjb teqb g) v k).
+    Proof.
+      intros nn m v H Hr Hv.
+      destruct (generalized_degree_eq_def teqb teqb_spec g (nbr_ok_wf g W) nn m v H Hr Hv) as (h & Hh & Hnd & Hk).
+      exists h. split; [exact Hh|]. split; [exact Hnd|]. intros k.
+      rewrite <- (gen_degree_ext teqb teqb_spec nodes _ _ Hext v k). apply Hk.
     Qed.
   End OnState.
 End ClusterWF.
